@@ -261,6 +261,42 @@ def tryRecv (k : Kind) (da : Nat) (f : Frame) : Outcome :=
   | .ecu => .ok (ecuRecv da f)
   | .encoder => .ok (encoderRecv da f)
 
+/-! ### the parse tables (tied to the source by the translator: `Consts.parseArms*` are regenerated on every run) -/
+
+/-- the arms of each driver's `parse` as THIS MODEL has them: (parameter group, "only from the unit's own address") -/
+def Kind.arms : Kind → List (Nat × Bool)
+  | .vcu => [(pgnProprietarilyConfigurableMessage1, false), (pgnSoftwareIdentification, true), (pgnAddressClaimed, true),
+             (vcuStatusPgn, true)]
+  | .hcu | .sim =>
+    [(pgnProprietarilyConfigurableMessage3, false), (pgnProprietarilyConfigurableMessage1, false),
+     (pgnSoftwareIdentification, true), (pgnAddressClaimed, true), (hcuStatusPgn, true), (hcuBankPgn0, false), (hcuBankPgn1, false)]
+  | .d7e | .ecm => (pgnTorqueSpeedControl1, false) :: (pgnElectronicEngineController1, true) :: emsOtherPgns.map (·, true)
+  | .inclino => [(pgnAddressClaimed, true), (inclinometerPgn, true)]
+  | .ecu => [(pgnSoftwareIdentification, true), (pgnAddressClaimed, true)]
+  | .encoder => [(pgnAddressClaimed, true), (encoderPgn, true)]
+
+/-- does the model's `parse` start with the destination guard -/
+def Kind.daGuarded : Kind → Bool
+  | .d7e | .ecm => false
+  | _ => true
+
+/-- the same two facts as the translator reads them off the source -/
+def parseTable : Kind → List (Nat × Bool)
+  | .vcu => parseArmsVcu
+  | .hcu | .sim => parseArmsHydraulic
+  | .d7e | .ecm => parseArmsEngine
+  | .inclino => parseArmsInclino
+  | .ecu => parseArmsEcu
+  | .encoder => parseArmsEncoder
+
+def parseDaGuard : Kind → Bool
+  | .vcu => parseDaGuardVcu
+  | .hcu | .sim => parseDaGuardHydraulic
+  | .d7e | .ecm => parseDaGuardEngine
+  | .inclino => parseDaGuardInclino
+  | .ecu => parseDaGuardEcu
+  | .encoder => parseDaGuardEncoder
+
 /-- does the frame count as a sign of life of the unit (driver mark, or the authority's mark for a
 non-empty `rx_queue`) -/
 def RecvOut.alive (r : RecvOut) : Bool := r.marks || !r.signals.isEmpty
